@@ -128,6 +128,18 @@ public:
     virtual void
     ProcessXObjectTypeCallback(XObjectTypeCallback&     theCallbackObject) const;
 
+protected:
+
+    /**
+     * Forget any values cached from the string value.  A derived
+     * class calls this when its string value changes.
+     */
+    void
+    clearCachedValues()
+    {
+        m_cachedNumberValue = 0.0;
+    }
+
 private:
 
     friend class XObjectResultTreeFragProxyText;
